@@ -294,7 +294,7 @@ var sweepPrevSQL string
 var sweepTick int
 var sweepDisturbers = []string{"\t\t'abc", "SELECT a,\n  b\nFROM t\nWHERE x = 'y'\n\n\n", "SELECT 1;\n\n\t\tSELECT \"q", "/* c */ SELECT\n\n\n\n\n\n\n\n'x"}
 
-func errSweepOne(id, sql, class string, big bool, reps int) sweepOut {
+func errSweepOne(id, sql, class string, big bool, reps int, only []string) sweepOut {
 	t0 := time.Now()
 	defer func() {
 		if !big && len(sql) < 4096 {
@@ -328,6 +328,17 @@ func errSweepOne(id, sql, class string, big bool, reps int) sweepOut {
 		}
 	}
 	for _, ep := range errEntryPoints(big) {
+		if len(only) > 0 {
+			keep := false
+			for _, n := range only {
+				if n == ep.name {
+					keep = true
+				}
+			}
+			if !keep {
+				continue
+			}
+		}
 		var runs [][]error
 		var pan string
 		for r := 0; r < reps; r++ {
@@ -586,7 +597,10 @@ func ctxSweepOne(id, sql string, maxK int) ctxOut {
 		a, err := p.ParseContextFromModelTokens(cc, toks)
 		ep.Polls = cc.polls
 		ep.FreeSame = resHash(a, err) == free
-		ep.TotalWork = len(toks)
+		ep.TotalWork = p.VerifState().Pos // where the cursor stopped (a rejected input stops early)
+		if ep.TotalWork > len(toks) {
+			ep.TotalWork = len(toks)
+		}
 		probeTk, _ := tokenizer.New()
 		probeToks, _ := probeTk.Tokenize([]byte(probeSQL))
 		pa, pe := parser.NewParser().ParseFromModelTokens(probeToks)
@@ -705,7 +719,8 @@ func init() {
 					Kind string `json:"kind"`
 					N    int    `json:"n"`
 				} `json:"gen"`
-				Big bool `json:"big"`
+				Big  bool     `json:"big"`
+				Only []string `json:"only"` // restrict to these entry points (very large inputs in the quick tier)
 			}
 			if json.Unmarshal(sc.Bytes(), &in) != nil {
 				continue
@@ -715,7 +730,7 @@ func init() {
 				sql = genInput(in.Gen.Kind, in.Gen.N)
 				in.Big = true
 			}
-			_ = enc.Encode(errSweepOne(in.ID, sql, in.Class, in.Big, reps))
+			_ = enc.Encode(errSweepOne(in.ID, sql, in.Class, in.Big, reps, in.Only))
 			w.Flush()
 		}
 		return 0
